@@ -623,8 +623,44 @@ def clause_f(repo, chk):
         chk.violation("F-cfit", gf.key, "predicate", "the FCN factory decides with `%s` whether the side-band sample is merged into the data, but the model factory builds %s for `model: cfit` (%s): for a class the predicate misses, side-band events with negative weights enter the cfit likelihood" % (txt, sorted(cfit_classes), why), file=LOADER, line=st.lineno)
 
 
+def clause_ragged(repo, chk):
+    """the batched likelihood entry points receive LISTS of per-batch tensors whose lengths differ when the batch size
+    does not divide the sample: a list must never be packed into one tensor"""
+    import ast
+
+    from ..model import norm_text
+    PACKERS = {"reduce_sum", "reduce_mean", "reduce_max", "reduce_min", "stack", "convert_to_tensor", "constant", "sum", "array", "asarray", "concat_as_tensor"}
+    chk.rule("B-ragged", "in every nll_grad_batch under tf_pwa/model/ (called by FCN with lists of per-batch tensors for data, mcdata, weight, mc_weight) no batched parameter - nor a local made from it by list(...) - is handed whole to a call that packs its argument into one tensor (tf.reduce_sum, tf.stack, tf.convert_to_tensor, np.sum, np.array ...): batches of unequal length cannot be packed, so the NLL could not be evaluated for a batch size that does not divide the sample; per-batch reduction (`[tf.reduce_sum(i) for i in weight]`) is the accepted idiom")
+    n = 0
+    for rel, m in sorted(repo.mods.items()):
+        if "/tests/" in rel or not rel.startswith("tf_pwa/model/"):
+            continue
+        for cls in m.all_classes:
+            f = cls.methods.get("nll_grad_batch")
+            if f is None:
+                continue
+            n += 1
+            batched = {a.arg for a in f.node.args.args[1:]}
+            for st in ast.walk(f.node):
+                if isinstance(st, ast.Assign) and len(st.targets) == 1 and isinstance(st.targets[0], ast.Name) and isinstance(st.value, ast.Call) and isinstance(st.value.func, ast.Name) and st.value.func.id in ("list", "tuple") and len(st.value.args) == 1 and isinstance(st.value.args[0], ast.Name) and st.value.args[0].id in batched:
+                    batched.add(st.targets[0].id)
+            hits = []
+            for c in ast.walk(f.node):
+                if isinstance(c, ast.Call) and isinstance(c.func, ast.Attribute) and c.func.attr in PACKERS and c.args and isinstance(c.args[0], ast.Name) and c.args[0].id in batched:
+                    root = norm_text(c.func).split(".")[0]
+                    if root in ("tf", "np", "numpy", "tensorflow"):
+                        hits.append(c)
+            chk.instance("B-ragged", "%s: batched parameters %s, packed whole %d times" % (f.key, sorted(batched), len(hits)), nontrivial=True)
+            for c in hits[:2]:
+                chk.violation("B-ragged", f.key, "packs:%s" % c.args[0].id, "`%s` packs the list of per-batch tensors `%s` into one tensor: with a batch size that does not divide the sample the batches have different lengths and the call fails (InvalidArgumentError), so the likelihood has no value for that batch size" % (norm_text(c)[:60], c.args[0].id), file=rel, line=c.lineno)
+    if n < 5:
+        raise AnalysisError("B-ragged: only %d nll_grad_batch methods found under tf_pwa/model/" % n)
+
+
 def run(repo, chk, tier):
     from ..cacheown import check_persistent_state
+
+    clause_ragged(repo, chk)
 
     check_persistent_state(repo, chk, ["tf_pwa/model/"])
     from ..cacheown import check_mutable_defaults
